@@ -48,6 +48,8 @@ def coptstr(s):
 
 def cexpr(e):
     t = e[0]
+    if t == "vec":
+        return "(EVec %s)" % clist("%d%%nat" % i for i in e[1:])
     if t == "f":
         return "(EField %d)" % e[1]
     if t == "c":
@@ -79,7 +81,8 @@ def cspec(s):
               "Maximize": "LMax"}[k]
         return "(mkLeaf %s %s)" % (lk, cq(s["q"]))
     if k == "Bag":
-        return "(mkLeaf (LBag %s) %s)" % ({"S": "RS", "N": "RN"}[s["range"]], cq(s["q"]))
+        rng = s["range"]
+        return "(mkLeaf (LBag %s) %s)" % ("RS" if rng == "S" else "RN" if rng == "N" else "(RV %d)" % int(rng[1:]), cq(s["q"]))
     if k == "Bin":
         return "(mkBin %d %s %s %s %s %s %s %s)" % (
             s["num"], cnum(s["low"]), cnum(s["high"]), cq(s["q"]), cspec(s["value"]),
